@@ -8,6 +8,7 @@ use crate::{AssetIssuance, LockTime, OutPoint, Sequence, TxIn, TxInWitness, TxOu
 #[path = "support/sinks.rs"]
 mod sinks;
 use sinks::{forget, CountSink};
+use core::mem::ManuallyDrop;
 
 fn enc_len<T: Encodable>(v: &T) -> usize {
     let mut s = CountSink(0);
@@ -17,9 +18,9 @@ fn enc_len<T: Encodable>(v: &T) -> usize {
     }
 }
 
-fn small_tx(with_witness: bool) -> Transaction {
-    let mut sw = Vec::with_capacity(1);
-    if with_witness { sw.push(vec![0u8; 3]); }
+fn small_tx(with_witness: bool, ins: &mut ManuallyDrop<[TxIn; 1]>, outs: &mut ManuallyDrop<[TxOut; 1]>, sws: &mut ManuallyDrop<[Vec<u8>; 1]>) -> Transaction {
+    sws[0] = vec![0u8; 3];
+    let sw: Vec<Vec<u8>> = if with_witness { unsafe { Vec::from_raw_parts(sws.as_mut_ptr() as *mut Vec<u8>, 1, 1) } } else { Vec::new() };
     let inp = TxIn {
         previous_output: OutPoint { txid: Txid::from_byte_array([0u8; 32]), vout: kani::any() },
         is_pegin: kani::any(),
@@ -35,14 +36,16 @@ fn small_tx(with_witness: bool) -> Transaction {
         script_pubkey: Script::from(vec![0u8; 1]),
         witness: TxOutWitness::empty(),
     };
-    let mut iv = Vec::with_capacity(1); iv.push(inp);
-    let mut ov = Vec::with_capacity(1); ov.push(out);
-    Transaction { version: kani::any(), lock_time: LockTime::from_consensus(kani::any()), input: iv, output: ov }
+    unsafe { core::ptr::write(&mut ins[0], inp); core::ptr::write(&mut outs[0], out); }
+    Transaction { version: kani::any(), lock_time: LockTime::from_consensus(kani::any()),
+        input: unsafe { Vec::from_raw_parts(ins.as_mut_ptr() as *mut TxIn, 1, 1) },
+        output: unsafe { Vec::from_raw_parts(outs.as_mut_ptr() as *mut TxOut, 1, 1) } }
 }
 
 macro_rules! block_harness {
     ($name:ident, $dyn:expr, $wit:expr) => {
         #[kani::proof]
+        #[kani::unwind(3)] // Block::size/weight and Transaction::scaled_size use iter().map().sum(); every loop here runs <= 2 times
         fn $name() {
             let ext = if $dyn {
                 let mut w = Vec::with_capacity(1);
@@ -59,9 +62,12 @@ macro_rules! block_harness {
                 height: kani::any(),
                 ext,
             };
-            let mut txs = Vec::with_capacity(1);
-            txs.push(small_tx($wit));
-            let block = Block { header, txdata: txs };
+            // element storage in typed local arrays: CBMC cannot constant-fold lengths of nested vectors read back from heap memory
+            let mut ins = ManuallyDrop::new([TxIn::default()]);
+            let mut outs = ManuallyDrop::new([TxOut::default()]);
+            let mut sws = ManuallyDrop::new([Vec::new()]);
+            let mut txs = ManuallyDrop::new([small_tx($wit, &mut ins, &mut outs, &mut sws)]);
+            let block = Block { header, txdata: unsafe { Vec::from_raw_parts(txs.as_mut_ptr() as *mut Transaction, 1, 1) } };
             let hdr = enc_len(&block.header);
             let txw = block.txdata[0].weight();
             let txs_len = enc_len(&block.txdata[0]);
